@@ -104,7 +104,7 @@ def run(ctx, case):
 def main(tier, seed, jobs, only):
     t0 = time.time()
     code, ev, lines = H.run_module(__name__, tier, seed, jobs=jobs, only=only)
-    res = xhair.run_targets("c18_targets", timeout_s=90 if tier == "quick" else 360, jobs=min(jobs, 8))
+    res = xhair.run_targets("c18_targets", timeout_s=300 if tier == "quick" else 900, jobs=min(jobs, 8))
     code, ev, lines = merge_xhair(ID, "c18_targets", code, ev, lines, res)
     ev["wall_s"] = round(time.time() - t0, 2)
     return code, ev, lines
